@@ -132,6 +132,7 @@ TInit == /\ l = 1
          /\ ccfg = [layout |-> <<[step |-> 1, n |-> 1]>>, method |-> "sum", xff |-> <<0, 1>>]
 
 TNext == /\ l <= Len(Trace)
+         /\ "parse_error" \notin DOMAIN Ln        \* what the command printed must be readable as records
          /\ LineOK
          /\ l' = l + 1
          /\ now' = IF l + 1 <= Len(Trace) THEN Trace[l + 1].now ELSE now
